@@ -17,10 +17,10 @@ EXTENDS Naturals, Sequences, FiniteSets, TLC
 Entries == {"lib", "cli_plain", "cli_json", "cli_skip", "cli_odk", "cli_json_skip"}
 Forms == {"valid", "invalid"}
 Outcomes == {"ok_silent", "ok_stderr", "ok_stderr_bytes", "reject", "reject_rc2", "reject_rc255_empty", "reject_arbitrary", "reject_bytes",
-             "killed", "killed_term", "java_absent", "corrupt_jar"}
+             "killed", "killed_term", "java_absent", "corrupt_jar", "corrupt_jar_after_notice"}   \* (the jarfile line after a JVM notice line)
 \* "exit > 0 with arbitrary stderr": any positive exit status is a rejection, whatever the validator printed
 \* (..._bytes: the validator's stderr is not valid UTF-8 - "arbitrary stderr" includes arbitrary bytes)
-Rejects == {"reject", "reject_rc2", "reject_rc255_empty", "reject_arbitrary", "reject_bytes", "corrupt_jar"}
+Rejects == {"reject", "reject_rc2", "reject_rc255_empty", "reject_arbitrary", "reject_bytes", "corrupt_jar", "corrupt_jar_after_notice"}
 AcceptsWithStderr == {"ok_stderr", "ok_stderr_bytes"}
 Killed == {"killed", "killed_term"}
 Validates(e) == e \notin {"cli_skip", "cli_json_skip"}
